@@ -191,6 +191,7 @@ func c01Scenario(clients []gridClient, depth int) *explore.Scenario {
 			ccfg := g.config("example.com")
 			if resumed {
 				ccfg.ClientSessionCache = tls.NewLRUClientSessionCache(4)
+				ccfg.PreferSkipResumptionOnNilExtension = true // the documented knob for specs without the needed session extension (e.g. fingerprinted copies)
 				scfg.MinVersion = tls.VersionTLS13
 				c0 := *ccfg
 				if w := peer.Run(&c0, g.ID, scfg, peer.Opts{Prepare: g.prepare(), Echo: true}); !w.OK() {
